@@ -147,7 +147,7 @@ def list_axioms(h: H):
     v = z3.Const('v!la', Val)
     j = z3.Int('j!la')
     return [z3.ForAll([l, v], h.bag(l, v) >= 0, patterns=[h.bag(l, v)]),
-            z3.ForAll([l], h.len(l) >= 0, patterns=[h.len(l)]),
+            z3.ForAll([l], z3.And(h.len(l) >= 0, (h.len(l) == 0) == (h.bagof(l) == EMPTY_BAG)), patterns=[h.len(l)]),
             # coupling instance: what sits at a valid position is a member
             z3.ForAll([l, j], z3.Implies(z3.And(0 <= j, j < h.len(l)), h.bag(l, h.at(l, j)) > 0), patterns=[h.at(l, j)])]
 
